@@ -981,9 +981,46 @@ def _stack(vs):
     return {"sh": list(vs[0]["sh"]) + [len(vs)], "d": [v["d"][i] for i in range(n) for v in vs], "as": "nd"}
 
 
+def _zip_axis_case(rng):
+    """add_mapspec_axis(p0, axis=<an axis that MapSpecs of p0 already have, as their last axis>): zipping, no dimension
+    is added.  One or two consumers map p0 (also along other axes), one consumer takes p0 WHOLE without a MapSpec (it
+    has to get `p0[:, .., axis]` of the SAME rank), optionally a function downstream of it."""
+    def arr(name, sh):
+        n = 1
+        for d in sh:
+            n *= d
+        return {"sh": list(sh), "d": [f"{name}_{i}" for i in range(n)], "as": "nd"}
+    def fn(name, outs, params, spec):
+        return {"name": name, "outs": outs, "params": params, "spec": spec, "int": [], "bound": [], "defaults": []}
+    a, b = rng.randint(1, 3), rng.randint(1, 3)
+    rank2 = rng.random() < 0.5
+    if rank2:
+        axis = "j"
+        funcs = [fn("f0", ["y0"], ["p0", "x0"], {"i": [["p0", ["i", "j"]], ["x0", ["i"]]], "o": [["y0", ["i", "j"]]]})]
+        if rng.random() < 0.6:
+            funcs.append(fn("f2", ["y2"], ["p0"], {"i": [["p0", [None, "j"]]], "o": [["y2", ["j"]]]}))
+        inputs = [["p0", arr("p0", [a, b])], ["x0", arr("x0", [a])]]
+    else:
+        axis = "i"
+        funcs = [fn("f0", ["y0"], ["x0", "p0"], {"i": [["x0", ["i"]], ["p0", ["i"]]], "o": [["y0", ["i"]]]})]
+        if rng.random() < 0.4:
+            funcs.append(fn("f2", ["y2"], ["p0", "c0"], {"i": [["p0", ["i"]]], "o": [["y2", ["i"]]]}))
+        inputs = [["x0", arr("x0", [a])], ["p0", arr("p0", [a])]]
+        if any(f["name"] == "f2" for f in funcs):
+            inputs.append(["c0", "C0"])
+    funcs.append(fn("f1", ["y1"], ["p0"], None))                         # takes p0 whole
+    if rng.random() < 0.4:
+        funcs.append(fn("f3", ["y3"], ["y1", "x0"] if rng.random() < 0.5 else ["y1"], None))
+    rq = {"funcs": funcs, "inputs": inputs, "internal": [], "storage": "dict"}
+    return {"kind": "map", "req": rq, "mop": {"op": "addaxis", "params": ["p0"], "axis": axis}, "inputs1": inputs,
+            "variants": [inputs]}
+
+
 def gen_map_case(rng, tier):
     from .. import mapgen
 
+    if rng.random() < 0.12:
+        return _zip_axis_case(rng)
     while True:
         rq = mapgen.gen_request(rng, max_funcs=3, max_size=3, allow_internal=False, storages=("dict",))
         if mapgen.request_size(rq) <= 18:
